@@ -71,6 +71,10 @@ func uniformTableTier(run *ev.Run, prop string, reduced bool, states *int, trans
 		}
 		return ref6962.Bytes(fam[f].Proof(s, n))
 	}
+	gridIndex := map[uint64]int{}
+	for i, v := range grid {
+		gridIndex[v] = i
+	}
 	var nTrans atomic.Int64
 	var nStates atomic.Int64
 	ch := make(chan uint64)
@@ -82,8 +86,14 @@ func uniformTableTier(run *ev.Run, prop string, reduced bool, states *int, trans
 			for s := range ch {
 				nStates.Add(1)
 				seedCP, seedMeta := cp("A", s)
+				// Both stores: stored sizes alternate between them (every grid
+				// size is submitted to both).
+				store := "mem"
+				if gridIndex[s]%2 == 1 {
+					store = "sql"
+				}
 				mk := func() *wh.Env {
-					e := wh.NewEnv(u, wh.Config{Store: "mem", Logs: []wh.LogCfg{la}})
+					e := wh.NewEnv(u, wh.Config{Store: store, Logs: []wh.LogCfg{la}})
 					if out := e.Do(wh.Req{LogID: la.ID(), CP: seedCP, Meta: seedMeta}); out.Class != wh.OK {
 						ev.Internal("uniform table: seeding size %d failed: %v", s, out.Err)
 					}
@@ -139,6 +149,12 @@ func uniformTableTier(run *ev.Run, prop string, reduced bool, states *int, trans
 								default:
 									got = "other"
 								}
+								// Whatever the property: an accepted request is stored as submitted.
+								if out.Class == wh.OK {
+									if text, _, ok := uni.SplitNote([]byte(after)); !ok || text != meta.Text {
+										run.Report("uniform-grid accepted-not-stored store="+store, fmt.Sprintf("uniform tree on the %s store, stored size %d: request %q was answered as accepted but the store does not hold the submitted checkpoint", store, s, r.Label), map[string]any{"kind": "uniform-cell", "stored_size": fmt.Sprint(s), "submitted_size": fmt.Sprint(n), "store": store})
+									}
+								}
 								rep := map[string]any{"kind": "uniform-cell", "stored_size": fmt.Sprint(s), "submitted_family": f, "submitted_size": fmt.Sprint(n), "old": fmt.Sprint(old), "proof": v.l}
 								cell := fmt.Sprintf("stored=2^k%+d submitted=%s old-rel=%s proof=%s", gridOffset(s), f, oldRel(old, s, n), v.l)
 								switch prop {
@@ -188,7 +204,7 @@ func uniformTableTier(run *ev.Run, prop string, reduced bool, states *int, trans
 	*trans += nTrans.Load()
 	run.Set("uniform_grid_sizes", len(grid))
 	run.Set("uniform_grid_transitions", nTrans.Load())
-	run.Set("uniform_grid", fmt.Sprintf("stored and submitted sizes on {2^k-1, 2^k, 2^k+1 : k in %s} plus 2^63-1, 2^63, 2^63+1, 2^63+5, 2^64-2, 2^64-1 (submitted also 0): all pairs, exact - not sampled; two mutually inconsistent uniform-leaf tree families, proofs computed exactly from perfect-subtree hashes", map[bool]string{true: "{0,1,2,3,8,16,31,32,33,62}", false: "0..62"}[reduced]))
+	run.Set("uniform_grid", fmt.Sprintf("stored and submitted sizes on {2^k-1, 2^k, 2^k+1 : k in %s} plus 2^63-1, 2^63, 2^63+1, 2^63+5, 2^64-2, 2^64-1 (submitted also 0): all pairs, exact - not sampled; stored sizes alternate between the in-memory and the SQL store; two mutually inconsistent uniform-leaf tree families, proofs computed exactly from perfect-subtree hashes", map[bool]string{true: "{0,1,2,3,8,16,31,32,33,62}", false: "0..62"}[reduced]))
 }
 
 func gridOffset(s uint64) int {
